@@ -197,7 +197,14 @@ impl AsRef<Sm2PublicKey> for Sm2PrivateKey {
 
 impl Sm2PrivateKey {
     pub fn new(sk: &[u8]) -> Sm2Result<Self> {
+        if sk.len() != 32 {
+            return Err(Sm2Error::InvalidPrivate);
+        }
         let d = u256_from_be_bytes(sk);
+        // a private key lies in [1, n-2] (GB/T 32918.1, 6.1)
+        if d == [0, 0, 0, 0] || u256_cmp(&d, &SM2_N_MINUS_TWO) > 0 {
+            return Err(Sm2Error::InvalidPrivate);
+        }
         let public_key = public_from_private(&d)?;
         let private_key = Self { d, public_key };
         Ok(private_key)
